@@ -171,15 +171,16 @@ Section Helper.
     Variable c : comp.
     Variable a : args.
 
-    (** connect 364-373: filter the arguments, then overwrite with rule results *)
+    (** connect 364-373: filter the arguments, then overwrite with rule results
+        (_apply_in_info_rules / _apply_out_info_rules 427-451: the cache is consulted only when
+        caching is enabled, fix 98cb380) *)
     Definition ex_eff (w : world) (i : nat) : option Z :=
       let st := wi w i in
       let provided := match in_exch st with None => a_ex a i | Some _ => None end in
       let ruled := match is_rules (sp_in sp i) with
-                   | Some rs => match in_exch st, in_cache st with
-                                | None, None => apply_rules w rs None
-                                | _, _ => None
-                                end
+                   | Some rs => if negb (is_some (in_exch st))
+                                   && (negb (c_cache c) || negb (is_some (in_cache st)))
+                                then apply_rules w rs None else None
                    | None => None
                    end in
       match ruled with Some t => Some t | None => provided end.
@@ -188,7 +189,8 @@ Section Helper.
       let st := wo w o in
       let provided := match o_hinfo st with None => a_pi a o | Some _ => None end in
       let ruled := match os_rules (sp_out sp o) with
-                   | Some rs => if negb (o_ipushed st) && negb (is_some (o_icache st))
+                   | Some rs => if negb (o_ipushed st)
+                                   && (negb (c_cache c) || negb (is_some (o_icache st)))
                                 then apply_rules w rs None else None
                    | None => None
                    end in
